@@ -188,6 +188,14 @@ func checkC14(c *Ctx) Meta {
 	if nCopy == 0 {
 		c.OK("C14-COPY", "no-value-copies", "", fmt.Sprintf("%d functions scanned, no value of a lock-carrying type is loaded, returned or passed by value", len(cfns)))
 	}
+	c.Rule("C14-SNAPSHOT", "what an operation reads under the lock is the state itself: the two branch counters read in one transaction are the external and the internal counter (shared polarity rule of C06/C01) — an export taken between issuance requests then matches a state the wallet was actually in, as the one-at-a-time order requires", 10)
+	if len(c.aliases) == 0 { // only as C14's own rule (the properties that alias C14's lock rules have the polarity rule themselves)
+		checkBranchPolarity(c, "C14-SNAPSHOT")
+	} else {
+		delete(c.Rules, c.alias("C14-SNAPSHOT"))
+		delete(c.Floors, c.alias("C14-SNAPSHOT"))
+	}
+
 	return Meta{
 		Explanation: "Decides only the lock-discipline half of 'free of data races': computed must-held locksets (forward dataflow per function, entry locksets by intersection over call sites to a fixpoint, closures passed to db.Update/View inherit the call site's lockset) and the pairwise rule store-vs-any-access on the shared wallet types. A violation names the two sites and both locksets.",
 		NotDecided:  "linearizability; races on pointees mutated through method calls on a loaded pointer (snacl.SecretKey.Zero/DeriveKey, ManagedAddress fields, which escape to callers by design); races inside mass-core or leveldb.",
